@@ -53,6 +53,8 @@ class OracleLoop(asyncio.SelectorEventLoop):
         self.iters_since = 0
         self.leaked = None
         self.verdict = None
+        self.prefer = None
+        self.on_deliver = None
 
     def _run_once(self):
         if self.active and not self._stopping:
@@ -67,7 +69,14 @@ class OracleLoop(asyncio.SelectorEventLoop):
                     self.active = False
                     self.verdict = 'deadlock'
                     raise Deadlock()
-                self._deliver(self.eng.choose(len(self.pending), 'deliver'))
+                if self.prefer is not None:
+                    # directed schedule (no solver choice): replies of the preferred simulator first
+                    idx = next((i for i, p in enumerate(self.pending) if p[0] == self.prefer), 0)
+                    if self.on_deliver is not None:
+                        self.on_deliver(self.pending[idx][0])
+                    self._deliver(idx)
+                else:
+                    self._deliver(self.eng.choose(len(self.pending), 'deliver'))
             elif self.D > 0 and self.pending and self._ready:
                 i = self.eng.choose(len(self.pending) + 1, 'early')
                 if i > 0:
